@@ -450,7 +450,7 @@ def run(ctx):
             have_raster = False
             ctx.notes.append(f"rasterisation part skipped: importing sdflit / swcgeom.transforms.image_stack failed in this sandbox: {type(e).__name__}: {e}")
         if have_raster:
-            resolutions = [1, 0.5] if quick else [1, 0.5, [1, 2, 0.5], 0.3]
+            resolutions = [1, 0.5, [1.5, 0.75, 3]] if quick else [1, 0.5, [1.5, 0.75, 3], [1, 2, 0.5], 0.3]
             tot = ins = 0
             for pid in all_sorted_tables_upto(4):
                 for mode in ("walk", "jitter", "lattice"):
